@@ -185,6 +185,17 @@ type c18Clock struct {
 
 func (c *c18Clock) at(tau int64) time.Time { return c.l.Add(time.Duration(tau - c.v)) }
 
+// rebase: an event at virtual time t has just been delivered; la is the monitor's stamp read back afterwards and
+// before the real time taken just before the event. The clock follows the stamp only if the stamp was actually
+// refreshed by this event; otherwise the old (virtual, real) pair stays, so that an activity which failed to
+// refresh the stamp shows up as a close that comes too early in virtual time.
+func (c c18Clock) rebase(t int64, la time.Time, before time.Time) c18Clock {
+	if la.Before(before) {
+		return c
+	}
+	return c18Clock{t, la}
+}
+
 // fake connection for the component-level drivers
 type c18FakeConn struct {
 	ctx    context.Context
@@ -250,8 +261,9 @@ func (d *c18MonDriver) apply(e c18Ev) ([]c18Obs, error) {
 		if closed {
 			return nil, nil
 		}
+		t0 := time.Now()
 		d.mon.Notify()
-		d.clk = c18Clock{e.t, d.mon.LastActivity()}
+		d.clk = d.clk.rebase(e.t, d.mon.LastActivity(), t0)
 	case 'T':
 		if d.conns != nil {
 			d.conns.CheckExpirations(d.clk.at(e.t))
@@ -361,17 +373,19 @@ func (m *c18CountingMonitor) CheckInactivity(now time.Time, cc *udpClient.Conn) 
 
 // udp client Conn over the in-memory session, monitor wired by the options package
 type c18UDPDriver struct {
-	sess     *c18Session
-	cc       *udpClient.Conn
-	mon      *c18CountingMonitor
-	real     *inactivity.Monitor[*udpClient.Conn]
-	clk      c18Clock
-	closeLog atomic.Int64
-	done     chan struct{}
-	mids     []int32 // message id of ping generation i+1
-	peerMid  int32
-	waitG    int // ping generation whose handler is still registered (0: none)
-	conns    *connections.Connections
+	sess *c18Session
+	cc   *udpClient.Conn
+	mon  *c18CountingMonitor
+	real *inactivity.Monitor[*udpClient.Conn]
+	clk  c18Clock
+	// stampMoved: the last injected datagram refreshed the activity stamp
+	stampMoved bool
+	closeLog   atomic.Int64
+	done       chan struct{}
+	mids       []int32 // message id of ping generation i+1
+	peerMid    int32
+	waitG      int // ping generation whose handler is still registered (0: none)
+	conns      *connections.Connections
 }
 
 func c18NewUDPDriver(h c18Hist) (*c18UDPDriver, error) {
@@ -429,6 +443,8 @@ func (d *c18UDPDriver) datagram(typ message.Type, code codes.Code, mid int32, to
 }
 
 func (d *c18UDPDriver) inject(dg []byte, queued bool) error {
+	t0 := time.Now()
+	d.stampMoved = false
 	if err := d.cc.Process(nil, dg); err != nil {
 		return fmt.Errorf("process: %w", err)
 	}
@@ -444,7 +460,10 @@ func (d *c18UDPDriver) inject(dg []byte, queued bool) error {
 		return errors.New("unexpected second processing signal")
 	default:
 	}
-	d.clk = c18Clock{0, d.real.LastActivity()}
+	if la := d.real.LastActivity(); !la.Before(t0) {
+		d.clk = c18Clock{0, la}
+		d.stampMoved = true
+	}
 	return nil
 }
 
@@ -491,7 +510,9 @@ func (d *c18UDPDriver) apply(e c18Ev) ([]c18Obs, error) {
 		if e.kind == 'P' && e.g == d.waitG {
 			d.waitG = 0
 		}
-		d.clk.v = e.t
+		if d.stampMoved {
+			d.clk.v = e.t
+		}
 	case 'T':
 		d.sess.mu.Lock()
 		d.sess.failPng = !e.ok
